@@ -363,6 +363,13 @@ def r08_13(run, model):
     body = S.norm_ws(run.facts.text(LIFT, arm["body"]["sp"]))
     # the callee's parameter types are read: a TFunc pattern binding `params`, or a `.params` access, in the arm
     reads_params = re.search(r"TFunc\{(ref)?params|TFunc\{[^}]*\bparams\b(?!:_)|\.params\b", body) is not None
+    # the rewrite of a call into the closure's apply function: which callee shapes does it cover?
+    only_vars = re.search(r"ifletLiftExpr::EVar\{name,\.\.\}=&func_expr", body) is not None and \
+        re.search(r"closure_struct_for_ty\(&?func_expr\.get_ty\(\)\)|apply_fn_for_struct\([^)]*func_ty", body) is None
+    run.ob("R08.13", "transform_expr|ECall: a callee that is not a variable is applied through its closure's apply function", not only_vars, site(LIFT, arm["sp"]),
+           "the apply rewrite is attempted only when the callee is a scope variable" if only_vars else "the rewrite looks at the callee's converted type",
+           witness="fn adder(k: int32) -> (int32) -> int32 { |x: int32| x + k } .. adder(1)(2): Go gets `t3(2)` with t3 of struct type "
+                   "closure_env_adder_0; `let f = adder(1); f(2)` works")
     run.ob("R08.13", "transform_expr|ECall: a closure argument is matched against the parameter's function type", reads_params, site(LIFT, arm["sp"]),
            "the arm reads the callee's parameter types" if reads_params else "arguments are converted and passed on; the callee's parameter types are never looked at (`Ty::TFunc { ref ret_ty, .. }`)",
            witness="fn apply_once(f: (int32) -> int32, v: int32) -> int32 { f(v) } … let k = 10; let c = |x: int32| x + k; apply_once(c, 4): "
